@@ -51,6 +51,7 @@ fn common_labels(ci: &mut CaseInfo, m: &RefDb, info: &HistInfo) {
     if s.out_of_line_values > 0 {
         ci.label("out-of-line value");
     }
+    info.export(ci);
     ci.count("steps executed", info.steps as u64);
     ci.count("dump comparisons", info.dumps as u64);
 }
@@ -70,7 +71,7 @@ pub fn c08(ctx: &mut Ctx) {
     p.w_reads = 6;
     p.invalid_pct = 15;
     let (lo, hi) = ctx.tier.pick((30, 120), (30, 200));
-    let cases = ctx.tier.pick(400, 10_000);
+    let cases = ctx.tier.pick(3000, 60_000);
     let strat = move || vgen::history(&p, lo, hi);
     let opts = HistOpts::default();
     let test = move |steps: &Vec<Step>| -> CaseResult {
@@ -108,7 +109,7 @@ pub fn c09(ctx: &mut Ctx) {
     p.w_reads = 25;
     p.w_remove = 8;
     let (lo, hi) = ctx.tier.pick((30, 100), (30, 200));
-    let cases = ctx.tier.pick(400, 10_000);
+    let cases = ctx.tier.pick(3000, 60_000);
     let strat = move || vgen::history(&p, lo, hi);
     let opts = HistOpts::default();
     let test = move |steps: &Vec<Step>| -> CaseResult {
@@ -153,7 +154,7 @@ pub fn c10(ctx: &mut Ctx) {
     p.empty_alias = true;
     p.alias_on_edge = true;
     let (lo, hi) = ctx.tier.pick((20, 80), (20, 160));
-    let cases = ctx.tier.pick(400, 10_000);
+    let cases = ctx.tier.pick(3000, 60_000);
     let strat = move || vgen::history(&p, lo, hi);
     let opts = HistOpts::default();
     let test = move |steps: &Vec<Step>| -> CaseResult {
@@ -191,7 +192,7 @@ pub fn c11(ctx: &mut Ctx) {
     p.w_reads = 8;
     p.w_tx = 8;
     let (lo, hi) = ctx.tier.pick((30, 90), (30, 160));
-    let cases = ctx.tier.pick(300, 8_000);
+    let cases = ctx.tier.pick(3000, 50_000);
     let strat = move || vgen::history(&p, lo, hi);
     let opts = HistOpts::default();
     let test = move |steps: &Vec<Step>| -> CaseResult {
